@@ -753,7 +753,11 @@ macro_rules! geom_complete_mod {
                 let edge2 = v2 - v0;
                 let h = self.direction.cross(edge2);
                 let a = edge1.dot(h);
-                if a > -T::epsilon() && a < T::epsilon() {
+                // The ray is parallel to the triangle's plane when `a` vanishes; "vanishes" is
+                // relative to the size of its two factors, otherwise small triangles (or short
+                // directions) would never be hit, whatever the angle.
+                let scale = edge1.map(|x| x.abs()).reduce_partial_max() * h.map(|x| x.abs()).reduce_partial_max();
+                if a.abs() <= T::epsilon() * scale {
                     return None;
                 }
                 let f = a.recip();
